@@ -78,7 +78,6 @@ Definition dec_check (e : env) (c : dec_case) : bool :=
   match decode e sid (unhex h), obs with
   | DOk v _, OVal o => val_sim (canon v) o
   | DErr, OErr => true
-  | DHuge, OErr => true          (* a count larger than the bytes left: the implementation fails later, after allocating *)
   | DPanic _, OPanic => true
   | _, _ => false
   end.
@@ -90,18 +89,29 @@ Definition reuse_check (e : env) (c : reuse_case) : bool :=
   match decode_into e sid prior (unhex h), obs with
   | DOk v _, OVal o => val_sim (canon v) o
   | DErr, OErr => true
-  | DHuge, OErr => true
   | DPanic _, OPanic => true
   | _, _ => false
   end.
 
 (* the implementation died (out of memory) or allocated more than its bound while decoding these bytes: the
-   model must attribute that to the known site, a LIST count larger than the bytes left (DHuge) - a death or
-   over-allocation the model does not predict is a mismatch, not an instance of the known finding *)
+   repaired model has no outcome that explains that (DHuge is never produced any more, see Props/C05), so such a
+   case is always a mismatch between model and code *)
 Definition huge_check (e : env) (sid : nat) (h : hexs) : bool :=
   match decode e sid (unhex h) with DHuge => true | _ => false end.
 
-Inductive gcase := GEnc (c : c03_case) | GDec (c : dec_case) | GReuse (c : reuse_case) | GHuge (sid : nat) (h : hexs).
+(* codec.Reader.ReadSliceInt8 / ReadSliceUint8 called directly with length n on these bytes, into a slice that holds
+   other content: the bytes read and the number of bytes left, or an error *)
+Inductive sobs := SlVal (h : hexs) (remaining : N) | SlErr.
+Definition slice_check (n : Z) (h : hexs) (o : sobs) : bool :=
+  match read_slice n (unhex h), o with
+  | Some (s, r), SlVal hs rem => bytes_eqb s (unhex hs) && (N.of_nat (length r) =? rem)
+  | None, SlErr => true
+  | _, _ => false
+  end.
+
+Inductive gcase := GEnc (c : c03_case) | GDec (c : dec_case) | GReuse (c : reuse_case) | GHuge (sid : nat) (h : hexs)
+| GSlice (n : Z) (h : hexs) (o : sobs).
 Definition gcase_check (e : env) (c : gcase) : bool :=
   match c with GEnc x => c03_check e x | GDec x => dec_check e x | GReuse x => reuse_check e x
-  | GHuge sid h => huge_check e sid h end.
+  | GHuge sid h => huge_check e sid h
+  | GSlice n h o => slice_check n h o end.
